@@ -207,7 +207,7 @@ func TestC06(t *testing.T) {
 	curProp = "C06"
 	r := vf.NewRec("C06")
 	defer r.Finish(t)
-	guard.StartWatchdog(*vf.Out, "C06")
+	guard.StartWatchdog(*vf.Out, vf.Label("C06"))
 
 	for _, rf := range r.LoadReplays(t) {
 		var c caseC06
